@@ -400,7 +400,22 @@ impl<'a, 't> Gen<'a, 't> {
                 AVal::Enum(valid[self.tape.below(valid.len())])
             }
             CharacterDataSpec::Pattern { regex, max_length, .. } => AVal::Str(self.gen_pattern(regex, *max_length)),
-            CharacterDataSpec::String { preserve_whitespace, max_length } => AVal::Str(self.gen_string(*preserve_whitespace, *max_length)),
+            CharacterDataSpec::String { preserve_whitespace, max_length } => {
+                let mut s = self.gen_string(*preserve_whitespace, *max_length);
+                // white space at the ends of a trimmed value: only character references can express it in the text
+                // (the renderer writes it that way); it must be loaded, written back and loaded again unchanged
+                if !*preserve_whitespace && max_length.is_none() && self.tape.below(8) == 0 {
+                    const WS: &[char] = &[' ', '\t', '\n'];
+                    let k = self.tape.below(6);
+                    if k % 2 == 0 {
+                        s.insert(0, WS[k / 2]);
+                    }
+                    if k >= 2 {
+                        s.push(WS[k % 3]);
+                    }
+                }
+                AVal::Str(s)
+            }
             CharacterDataSpec::UnsignedInteger => AVal::UInt(self.gen_uint()),
             CharacterDataSpec::Float => AVal::Float(self.gen_float()),
         })
@@ -666,6 +681,8 @@ pub struct Renderer<'a, 't> {
     /// canonical = exactly the library's own layout choices are NOT assumed; plain style: "\n" + 2 spaces, double quotes, named entities
     pub plain: bool,
     nl: &'static str,
+    /// white space at the ends of the value being written must be written as character references
+    edge_refs: bool,
 }
 
 fn is_xml_ws(c: char) -> bool {
@@ -674,7 +691,7 @@ fn is_xml_ws(c: char) -> bool {
 
 impl<'a, 't> Renderer<'a, 't> {
     pub fn new(style: &'a mut Tape<'t>, plain: bool) -> Self {
-        Renderer { style, out: vec![], flags: RenderFlags::default(), plain, nl: "\n" }
+        Renderer { style, out: vec![], flags: RenderFlags::default(), plain, nl: "\n", edge_refs: false }
     }
 
     fn push(&mut self, s: &str) {
@@ -682,7 +699,16 @@ impl<'a, 't> Renderer<'a, 't> {
     }
 
     fn escape_into(&mut self, s: &str, in_attr: Option<char>, pattern: bool) {
-        for c in s.chars() {
+        let last = s.chars().count().saturating_sub(1);
+        for (ci, c) in s.chars().enumerate() {
+            if self.edge_refs && is_xml_ws(c) && (ci == 0 || ci == last) {
+                // white space at the ends of a value that the loader trims: must be a character reference
+                self.flags.charrefs = true;
+                self.flags.escapes = true;
+                let t = if self.plain || self.style.below(2) == 0 { format!("&#{};", c as u32) } else { format!("&#x{:x};", c as u32) };
+                self.push(&t);
+                continue;
+            }
             let must = match c {
                 '&' | '<' => true,
                 '>' => in_attr.is_some(), // raw '>' inside a tag would end it for this lexer
@@ -849,7 +875,9 @@ impl<'a, 't> Renderer<'a, 't> {
             if !preserve {
                 self.pad_attr();
             }
+            self.edge_refs = !preserve;
             self.value_text(v, Some(q), pattern);
+            self.edge_refs = false;
             if !preserve {
                 self.pad_attr();
             }
@@ -918,7 +946,9 @@ impl<'a, 't> Renderer<'a, 't> {
                             if !preserve {
                                 self.pad();
                             }
+                            self.edge_refs = !preserve;
                             self.value_text(v, None, pattern);
+                            self.edge_refs = false;
                             if !preserve {
                                 self.pad();
                             }
